@@ -42,6 +42,16 @@ theorem setArray_inv (s : State) (c i : Nat) (v : Val) (h : Inv s) :
   have := h.colsRect (s.cols[j]) (List.getElem_mem hj)
   split at hjc <;> subst hjc <;> simp [this]
 
+theorem setRow_inv (s : State) (i : Nat) (vals : List Val) (hl : vals.length = s.uids.length) (h : Inv s) :
+    Inv { s with cols := (s.cols.zip vals).map (fun (cv : List Val × Val) => cv.1.set i cv.2) } := by
+  refine ⟨h.uidsNodup, h.uidsLt, h.namesLen, h.namesNodup, ?_, ?_, h.locLen, h.rolesLive, h.rolesNodup⟩
+  · simp [List.length_zip, h.colsLen, hl]
+  · intro col hcol
+    simp only [List.mem_map] at hcol
+    obtain ⟨cv, hcv, rfl⟩ := hcol
+    have := h.colsRect cv.1 (List.of_mem_zip hcv).1
+    simp [this]
+
 theorem addSamples_inv (s : State) (n : Nat) (v : Val) (h : Inv s) :
     Inv { s with nech := s.nech + n, cols := s.cols.map (fun c => c ++ List.replicate n v) } := by
   refine ⟨h.uidsNodup, h.uidsLt, h.namesLen, h.namesNodup, by simpa using h.colsLen, ?_,
@@ -66,7 +76,7 @@ are covered by the correspondence run and the decidable oracle `inv` evaluated o
 own state, see DESIGN.md C07) -/
 def Covered : Op → Bool
   | .delUid _ | .delCol _ | .delName _ | .delLoc _ | .clearLoc _
-  | .addSamples _ _ | .delSample _ | .setArray _ _ _ => true
+  | .addSamples _ _ | .delSample _ | .setArray _ _ _ | .setRow _ _ | .getRow _ _ => true
   | _ => false
 
 theorem step_inv_covered (s s' : State) (op : Op) (hc : Covered op = true) (h : Inv s)
@@ -98,6 +108,15 @@ theorem step_inv_covered (s s' : State) (op : Op) (hc : Covered op = true) (h : 
     split at hs <;> injection hs with hs <;> subst hs
     · exact h
     · exact setArray_inv s _ _ v h
+  case setRow iech vals =>
+    split at hs <;> injection hs with hs <;> subst hs
+    · exact h
+    · rename_i hc
+      have hl : vals.length = s.uids.length := by
+        by_contra hne
+        exact hc (by simp [ncol, hne])
+      exact setRow_inv s _ vals hl h
+  case getRow iech seen => injection hs with hs; subst hs; exact h
 
 /-- all histories made of covered operations: by induction on the history, no bound on its length -/
 theorem reach_covered : ∀ (ops : List Op) (s s' : State),
